@@ -8,6 +8,8 @@ int cmd_c12(int argc, char **argv) {
   int ne = atoi(argv[1]); double nodes[48];
   FILE *f = fopen(argv[0], "r"); if (!f) return 2; for (int i = 0; i < 48; i++) if (fscanf(f, "%lf", &nodes[i]) != 1) return 2; fclose(f);
   double th[25]; for (int i = 0; i < 25; i++) th[i] = PI * i / 24.0; th[12] = PI / 2; th[24] = PI;
+  /* the forward and backward cones, where series expansions and cancellation live (ascending order is kept) */
+  th[1] = 1e-3; th[2] = 0.02; th[3] = 0.049; th[4] = 0.3; th[21] = PI - 0.3; th[22] = PI - 0.03; th[23] = PI - 1e-3;
   double ph[8]; for (int j = 0; j < 8; j++) ph[j] = PI * j / 4.0;
   /* non-positive energies: every function of E must fail */
   { double bad[] = {0.0, -1.0, -1e-300}; for (int b = 0; b < 3; b++) { double E = bad[b]; xrl_error *e[6] = {0}; double v[6];
